@@ -48,6 +48,12 @@ pub fn serve_as_file_path<T>(directory_path: &'static str) -> impl Fn(Request, A
     move |request: Request, _| {
         let directory_path = directory_path.strip_suffix('/').unwrap_or(directory_path);
         let file_path = request.uri.strip_prefix('/').unwrap_or(&request.uri);
+
+        // Avoid path traversal exploits
+        if file_path.contains("..") || file_path.contains(':') {
+            return error_handler(StatusCode::NotFound);
+        }
+
         let path = format!("{}/{}", directory_path, file_path);
 
         let path_buf = PathBuf::from(path);
